@@ -238,6 +238,97 @@ def oracle_loopback(case):
                 sample={"calls": [(c["name"], c["params"], c["result"]) for c in case["calls"]], "style": case["style"], "version": case["version"]})
 
 
+@st.composite
+def reregistration_cases(draw):
+    name = draw(st.one_of(ident, st.lists(ident, min_size=2, max_size=3).map(".".join)))
+    steps = draw(st.lists(st.sampled_from(["call", "call", "swap-function", "swap-instance", "remove"]), min_size=2, max_size=7))
+    return {"name": name, "steps": steps, "version": draw(st.sampled_from([1.0, 2.0])), "kind": draw(st.sampled_from(["function", "instance"]))}
+
+
+def oracle_reregistration(case):
+    """The callable registered under a name changes between calls: each call reaches the callable
+    registered at that moment, exactly once"""
+    from jsonrpclib import jsonrpc as J
+    from jsonrpclib.SimpleJSONRPCServer import SimpleJSONRPCDispatcher
+    from jsonrpclib.config import Config
+    from vlib.loopback import DispatcherTransport
+
+    name = case["name"]
+    if not name_ok(name, "plain") or any(seg.startswith("_") for seg in name.split(".")):
+        raise Skip()
+    cfg = Config(version=case["version"])
+    disp = SimpleJSONRPCDispatcher(config=cfg)
+    proxy = J.ServerProxy("http://loopback/", transport=DispatcherTransport(cfg, disp), config=cfg, version=case["version"])
+    log = []
+    generation = [0]
+
+    def make_callable():
+        generation[0] += 1
+        g = generation[0]
+
+        def target(*a):
+            log.append(g)
+            return ["generation", g]
+        return target
+
+    def make_instance(func):
+        # an object tree along the dotted name
+        segs = name.split(".")
+        leaf = type("Leaf", (object,), {segs[-1]: staticmethod(func)})()
+        obj = leaf
+        for seg in reversed(segs[:-1]):
+            holder = type("Node", (object,), {})()
+            setattr(holder, seg, obj)
+            obj = holder
+        return obj
+
+    kind = case["kind"]
+    current = None
+
+    def install():
+        f = make_callable()
+        if kind == "function":
+            disp.register_function(f, name)
+        else:
+            disp.register_instance(make_instance(f))
+        return generation[0]
+
+    current = install()
+    swaps = 0
+    for step in case["steps"]:
+        if step == "swap-function":
+            kind_before = kind
+            if kind == "function":
+                current = install()
+                swaps += 1
+        elif step == "swap-instance":
+            if kind == "instance":
+                current = install()
+                swaps += 1
+        elif step == "remove":
+            if kind == "function":
+                disp.funcs.pop(name, None)
+            else:
+                disp.register_instance(object())
+            current = None
+            swaps += 1
+        else:
+            del log[:]
+            try:
+                r = getattr(proxy, name)(1)
+            except J.ProtocolError as ex:
+                if current is not None:
+                    fail("C01/call-raised:ProtocolError", "calling %r raised %r although a callable is registered" % (name, ex))
+                if log:
+                    fail("C01/invocations", "a removed callable was invoked: %r" % (log,))
+                continue
+            if current is None:
+                fail("C01/invocations", "calling %r returned %r although nothing is registered under that name any more (invoked %r)" % (name, r, log))
+            if log != [current] or r != ["generation", current]:
+                fail("C01/stale-callable", "calling %r reached generation %r and returned %r; the callable registered now is generation %d" % (name, log, r, current))
+    return Info(nt=swaps > 0, classes=["re-registration", "kind:" + kind, "v%.1f" % case["version"]], sample={"name": name, "steps": case["steps"], "kind": kind})
+
+
 _farm = [None]
 
 
@@ -293,6 +384,9 @@ SUBS = [
         budget={"quick": 8000, "thorough": 150000}, shards={"quick": 12, "thorough": 16},
         time_cap={"quick": 100, "thorough": 1500},
         what="ServerProxy <-> bare dispatcher through an in-process transport"),
+    Sub("re-registration", oracle_reregistration, strategy=lambda tier: reregistration_cases(),
+        budget={"quick": 2000, "thorough": 30000}, shards={"quick": 4, "thorough": 8},
+        what="the callable behind a name is replaced or removed between calls (function table and instance trees)"),
     Sub("sockets", oracle_sockets, strategy=lambda tier: cases(True), setup=farm_setup, teardown=farm_teardown,
         budget={"quick": 1200, "thorough": 20000}, shards={"quick": 4, "thorough": 8},
         time_cap={"quick": 100, "thorough": 1500},
